@@ -219,6 +219,26 @@ func (o *Output) advanceSpaceAware(paragraphDir di.Direction) fixed.Int26_6 {
 	return o.Advance - lastG.startLetterSpacing
 }
 
+// advanceBeforeTruncator is the same as [advanceSpaceAware], when the run is followed
+// by the truncator: a trailing white space is still ignored (it is trimmed), but
+// the letter spacing after the last glyph is kept, since it is not at the end of the line.
+func (o *Output) advanceBeforeTruncator(paragraphDir di.Direction) fixed.Int26_6 {
+	L := len(o.Glyphs)
+	if L == 0 || paragraphDir.Progression() != o.Direction.Progression() {
+		return o.Advance
+	}
+	lastG := o.Glyphs[0]
+	spacing := lastG.startLetterSpacing
+	if o.Direction.Progression() == di.FromTopLeft {
+		lastG = o.Glyphs[L-1]
+		spacing = lastG.endLetterSpacing
+	}
+	if o.Direction.IsVertical() && lastG.Height == 0 || !o.Direction.IsVertical() && lastG.Width == 0 {
+		spacing = 0
+	}
+	return o.advanceSpaceAware(paragraphDir) + spacing
+}
+
 // RecalculateAll updates the all other fields of the Output
 // to match the current contents of the Glyphs field.
 // This method will fail with UnimplementedDirectionError if the Output
